@@ -192,6 +192,12 @@ def run(ctx):
         lp = os.path.join(where, "lnk")
         text = outside if t % 4 == 0 else os.path.relpath(outside, where)
         os.symlink(text, lp)
+        if t % 2 == 0 and len(dirs) > 1:
+            # ... and a link to a directory INSIDE the root, which the walk also reaches by its own path: still every entry once
+            inner = rng.choice([d_ for d_ in dirs if d_ != root])
+            ilp = os.path.join(rng.choice(dirs), "inl")
+            if not os.path.lexists(ilp):
+                os.symlink(inner if t % 4 == 0 else os.path.relpath(inner, os.path.dirname(ilp)), ilp)
         for dfs in (False, True):
             cwd, sp = rng.choice([(base, os.path.relpath(root, base)), (root, "."), (ctx.scratch, root), (os.path.dirname(root), "r")])
             sjobs.append(dict(base=base, root=root, cwd=cwd, sp=sp, lp=lp, text=text, dfs=dfs, outside=outside))
